@@ -202,6 +202,7 @@ func workloads() []workload {
 		{"kmeans", "numerical.KMeans.Iterate/Assign worker pools", wKMeans},
 		{"heightmap", "toolbox3d.HeightMap.AddSpheresSDF worker pool", wHeightMap},
 		{"obj-builders", "model3d.Build*OBJ and CoordColorFunc.QuantizedTriangleColor worker pools", wOBJ},
+		{"first-use", "concurrent first calls of independent library entry points in a fresh process (package-level lazy state)", wFirstUse},
 	}
 }
 
@@ -728,4 +729,88 @@ func wOBJ(w *wctx) {
 	q := cf.QuantizedTriangleColor(m, 4)
 	_ = q(ts[0])
 	w.ops(len(ts) * 4)
+}
+
+// wFirstUse: the very first library calls of the process are made concurrently by
+// several goroutines, each on its own inputs; every result must equal the result of
+// the same call made sequentially afterwards. This is where package-level lazily
+// initialised state (lookup tables, caches) would race or be observed half-built.
+func wFirstUse(w *wctx) {
+	type call struct {
+		name string
+		f    func(seed int64) string
+	}
+	calls := []call{
+		{"model3d.MarchingCubes", func(seed int64) string {
+			rng := rand.New(rand.NewSource(seed))
+			s := vlib.CSG(rng, 2, 1)
+			return fmt.Sprint(vlib.CanonTris(vlib.Tris(model3d.MarchingCubes(s, 0.11))))
+		}},
+		{"model3d.MarchingCubesSearch", func(seed int64) string {
+			rng := rand.New(rand.NewSource(seed))
+			s := vlib.SphereSolid(model3d.XYZ(rng.Float64(), 0, 0), 0.5+rng.Float64())
+			return fmt.Sprint(vlib.CanonTris(vlib.Tris(model3d.MarchingCubesSearch(s, 0.17, 3))))
+		}},
+		{"model3d.MarchingCubesFilter", func(seed int64) string {
+			rng := rand.New(rand.NewSource(seed))
+			s := vlib.SphereSolid(model3d.XYZ(0, rng.Float64(), 0), 0.5+rng.Float64())
+			return fmt.Sprint(vlib.CanonTris(vlib.Tris(model3d.MarchingCubesFilter(s, func(*model3d.Rect) bool { return true }, 0.19))))
+		}},
+		{"model2d.MarchingSquares", func(seed int64) string {
+			rng := rand.New(rand.NewSource(seed))
+			c := &model2d.Circle{Center: model2d.XY(rng.Float64(), rng.Float64()), Radius: 0.5 + rng.Float64()}
+			return fmt.Sprint(vlib.CanonSegs(vlib.Segs(model2d.MarchingSquaresSearch(c, 0.07, 2))))
+		}},
+		{"model3d.DualContour", func(seed int64) string {
+			rng := rand.New(rand.NewSource(seed))
+			s := vlib.SphereSolid(model3d.XYZ(0, 0, rng.Float64()), 0.5+rng.Float64())
+			return fmt.Sprint(vlib.CanonTris(vlib.Tris(model3d.DualContour(s, 0.21, false, true))))
+		}},
+		{"model3d.NewMeshIcosphere+MeshToSDF", func(seed int64) string {
+			rng := rand.New(rand.NewSource(seed))
+			m := model3d.NewMeshIcosphere(model3d.XYZ(rng.Float64(), 0, 0), 1+rng.Float64(), 3)
+			sdf := model3d.MeshToSDF(m)
+			return fmt.Sprintf("%d %x %x", m.NumTriangles(), sdf.SDF(model3d.XYZ(0.1, 0.2, 0.3)), sdf.SDF(model3d.XYZ(3, 0.2, 0.3)))
+		}},
+		{"model2d.Triangulate+BezierEval", func(seed int64) string {
+			rng := rand.New(rand.NewSource(seed))
+			var poly []model2d.Coord
+			for i := 0; i < 9; i++ {
+				a := float64(i) * 2 * math.Pi / 9
+				r := 1 + 0.5*rng.Float64()
+				poly = append(poly, model2d.XY(r*math.Cos(a), r*math.Sin(a)))
+			}
+			b := model2d.BezierCurve(poly)
+			return fmt.Sprintf("%x %x", model2d.Triangulate(poly), b.Eval(0.37))
+		}},
+		{"model3d.NewCoordTree", func(seed int64) string {
+			rng := rand.New(rand.NewSource(seed))
+			var pts []C3
+			for i := 0; i < 300; i++ {
+				pts = append(pts, model3d.XYZ(rng.NormFloat64(), rng.NormFloat64(), rng.NormFloat64()))
+			}
+			t := model3d.NewCoordTree(pts)
+			return fmt.Sprintf("%x %x", t.NearestNeighbor(C3{}), t.KNN(5, model3d.XYZ(1, 1, 1)))
+		}},
+	}
+	got := make([]string, w.gos)
+	which := make([]int, w.gos)
+	for g := range which {
+		// several goroutines make the same kind of call: the marching cubes family first
+		which[g] = g % len(calls)
+		if g < 4 {
+			which[g] = g % 3
+		}
+	}
+	w.parallel(w.gos, func(g int, _ *rand.Rand) {
+		got[g] = calls[which[g]].f(w.seed*100 + int64(g))
+		w.ops(1)
+	})
+	for g := range got {
+		want := calls[which[g]].f(w.seed*100 + int64(g))
+		if got[g] != want {
+			w.behav(calls[which[g]].name+"/concurrent-first-use-equals-sequential", fmt.Sprintf("result of a concurrent first call differs from the same call made sequentially afterwards (lengths %d vs %d)", len(got[g]), len(want)))
+		}
+	}
+	w.ops(49)
 }
